@@ -269,6 +269,11 @@ def check(run, replay=None):
                           'what': 'enum:' + '; '.join(bad[:8])}, ['ENUM ' + b for b in bad]))
     if replay and any(l.startswith('ENUM ') for l in vlib.read_replay(replay)):
         return          # the replay of an enumerator finding is the table comparison above
+    # what an application gets when it leaves an argument out: the default arguments of the setters / parsers, as values (seed C15-21)
+    import defaults_probe
+    defaults_probe.check(run, replay)
+    if replay and any(l.startswith('DEFAULT ') for l in vlib.read_replay(replay)):
+        return
     ob = META.get('obligations', {})
     lay = ob.get('layout', [])
     built = run.cov['discharged'] == run.cov['obligations'] and run.cov['obligations'] > 0
